@@ -1,5 +1,7 @@
 """Contracts for someip.sd (session storage first; the stateful classes follow)."""
 import someip.sd as SD
+from contracts import spec_header as SH  # noqa: F401  (contracts of the SOME/IP codec)
+from contracts import spec_sdcodec as SC  # noqa: F401  (contracts of the SD codec)
 from contracts.common import gen_addr
 
 ID_MAX = 0xFFFF
@@ -117,3 +119,88 @@ def ob_assign_outgoing_refines(vc):
     vc.check_eq(a.incoming, b.incoming, "assign_outgoing.frame_incoming")
     if o1.kind == "ret":
         vc.check(o1.value[1] >= 1 and o1.value[1] <= ID_MAX, "assign_outgoing.id_in_range")
+
+
+# ---------------------------------------------------------------------------- ServiceDiscoveryProtocol.send_sd
+import someip.header as H  # noqa: E402
+
+SD_SERVICE_ID = 0xFFFF  # PRS_SOMEIPSD_00003
+SD_METHOD_ID = 0x8100
+SD_INTERFACE = 0x01
+
+
+def send_sd(self, entries, remote=None):
+    """an SD message is a SOME/IP notification (service 0xFFFF, method 0x8100, client 0,
+    interface 1, return code OK) whose payload is the SD message of the entries with the
+    shared option array; it carries the (reboot flag, session id) pair drawn for its
+    destination.  Nothing is drawn or sent for an empty entry list."""
+    if not entries:
+        return None
+    flag_reboot, session_id = self.session_storage.assign_outgoing(remote)
+    msg = H.SOMEIPSDHeader(flag_reboot=flag_reboot, flag_unicast=True, entries=tuple(entries)).assign_option_indexes()
+    hdr = H.SOMEIPHeader(
+        service_id=SD_SERVICE_ID,
+        method_id=SD_METHOD_ID,
+        client_id=0,
+        session_id=session_id,
+        interface_version=SD_INTERFACE,
+        message_type=H.SOMEIPMessageType.NOTIFICATION,
+        return_code=H.SOMEIPReturnCode.E_OK,
+        protocol_version=1,
+        payload=msg.build(),
+    )
+    self.send(hdr.build(), remote)
+    return None
+
+
+CONTRACTS["someip.sd.ServiceDiscoveryProtocol.send_sd"] = send_sd
+
+
+def gen_sd_protocol(vc, name, copy_of=None):
+    """a discovery endpoint (real constructor) with a recording transport; its session
+    storage has arbitrary contents"""
+    prot = SD.ServiceDiscoveryProtocol((vc.opaque(name + ".mc_host", "host"), 30490))
+    transport = vc.opaque(name + ".transport", "transport")
+    sent = vc.stub(transport, "sendto")
+    prot.transport = transport
+    return prot, sent
+
+
+def ob_send_sd_refines(vc):
+    """BOUNDED in the number of entries per call (0..2); destinations, session table,
+    entry fields and option runs symbolic"""
+    from contracts.spec_config import gen_entry
+
+    a, sent_a = gen_sd_protocol(vc, "prot")
+    b, sent_b = gen_sd_protocol(vc, "prot_spec")
+    b.default_addr = a.default_addr
+    sa, sb = gen_storage(vc, "st")
+    a.session_storage = sa
+    b.session_storage = sb
+    n = vc.choice("n_entries", (0, 1))
+    entries = [gen_entry(vc, "e" + str(i), resolved=True) for i in range(n)]
+    if vc.choice("remote_is_none", (True, False)):
+        remote = None
+    else:
+        remote = gen_addr(vc, "remote")
+    drawn = vc.spy(sa, "assign_outgoing")
+    o1 = vc.outcome(vc.body(SD.ServiceDiscoveryProtocol.send_sd), a, list(entries), remote)
+    o2 = vc.outcome(send_sd, b, list(entries), remote)
+    vc.same_outcome(o1, o2, "send_sd.refines")
+    vc.check_eq(len(sent_a), len(sent_b), "send_sd.refines.number_of_datagrams")
+    if len(sent_a) == 1 and len(sent_b) == 1:
+        vc.cover("sent")
+        vc.check_eq(sent_a[0][0], sent_b[0][0], "send_sd.refines.datagram")
+        vc.check_eq(sent_a[0][1], sent_b[0][1], "send_sd.refines.destination")
+    vc.check_eq(sa.outgoing, sb.outgoing, "send_sd.refines.session_table")
+    if n == 0:
+        vc.cover("empty")
+        vc.check_eq(len(sent_a), 0, "send_sd.empty_sends_nothing")
+        vc.check_eq(len(drawn), 0, "send_sd.empty_consumes_no_session_id")
+    elif o1.kind == "ret":
+        vc.check_eq(len(drawn), 1, "send_sd.draws_exactly_one_session_id")
+        vc.check_eq(drawn[0], (remote,), "send_sd.draws_it_for_the_destination")
+        vc.check_eq(len(sent_a), 1, "send_sd.sends_exactly_one_datagram")
+
+
+SEND_SD_OBLIGATIONS = [ob_send_sd_refines]
